@@ -1103,7 +1103,11 @@ mod from_text {
             Bool(bool) => Literal::Boolean(bool),
             Number(number) if number.is_i64() => Literal::Integer(number.as_i64().unwrap()),
             Number(number) if number.is_f64() => Literal::Float(number.as_f64().unwrap()),
-            Number(_) => Literal::Null,
+            // an integer above i64::MAX: a float, like such a number written in PRQL
+            Number(number) => match number.as_f64() {
+                Some(float) => Literal::Float(float),
+                None => Literal::Null,
+            },
             String(string) => Literal::String(string),
             Array(_) => Literal::Null,
             Object(_) => Literal::Null,
